@@ -37,6 +37,13 @@ def stable(ctx, pw, cred=b"alice"):
               "another user": honest_flow(ctx, pw, b"bob", setup=f.setup, registration_only=True, count=True),
               "another user (long identifier, common prefix)": honest_flow(ctx, pw, cred[:-1] + b"X", setup=f.setup, registration_only=True, count=True),
               "another server": honest_flow(ctx, pw, cred, registration_only=True, count=True)}
+    # servers restart: setups restored from a serde store keep their own seed (another server still separates,
+    # the same server still gives the key it gave before)
+    r_new = ctx.call("setup_new", ctx.tape(2 * L.Nsk + L.Nh + 16))
+    if ctx.expect(r_new.ok, "another server setup"):
+        store = ["bincode", "json"][len(pw) % 2]
+        others["another server, restored from a serde-%s store" % store] = honest_flow(
+            ctx, pw, cred, registration_only=True, count=True, setup=persist(ctx, "ServerSetup", r_new.b(0), store))
     # the same envelope nonce (same registration tape) isolates what the export key depends on besides the nonce
     def reg_with_tape(p_, c_, tape_reg, tape_fin):
         r = ctx.call("reg_start", tape_reg, p_)
@@ -48,6 +55,12 @@ def stable(ctx, pw, cred=b"alice"):
     t_reg, t_fin = ctx.btape(), ctx.tape(48)
     base_ek = reg_with_tape(pw, cred, t_reg, t_fin)
     ctx.expect(base_ek is not None, "registration on a fixed tape succeeds")
+    for fmt in ("bincode", "json"):
+        s2 = persist(ctx, "ServerSetup", f.setup, fmt)
+        r = ctx.call("reg_start", t_reg, pw)
+        rr = ctx.call("srv_reg_start", s2, r.b(1), cred) if r.ok else r
+        r2 = ctx.call("reg_finish", r.b(0), t_fin, pw, rr.b(0), None, None, "~") if rr.ok else rr
+        ctx.expect(r2.ok and r2.b(1) == base_ek, "the same server restored from a serde-%s store yields the same export key on the same tape" % fmt)
     for p2 in related_passwords(pw):
         e2 = reg_with_tape(p2, cred, t_reg, t_fin)
         ctx.expect(e2 is None or e2 != base_ek, "another password (%r..., %d bytes) yields a different export key even on the same tape" % (p2[:8], len(p2)))
